@@ -21,6 +21,7 @@ package dag
 import (
 	"encoding/base64"
 	"fmt"
+	"math"
 	"time"
 
 	"github.com/lestrrat-go/jwx/v2/jwa"
@@ -138,7 +139,7 @@ func parseVersion(transaction *transaction, headers jws.Headers, _ *jws.Message)
 	var version Version
 	if versionAsInterf, ok := headers.Get(versionHeader); !ok {
 		return transactionValidationError(missingHeaderErrFmt, versionHeader)
-	} else if versionAsFloat64, ok := versionAsInterf.(float64); !ok {
+	} else if versionAsFloat64, ok := versionAsInterf.(float64); !ok || versionAsFloat64 != math.Trunc(versionAsFloat64) {
 		return transactionValidationError(invalidHeaderErrFmt, versionHeader)
 	} else if version = Version(versionAsFloat64); !versionAllowed(version) {
 		return transactionValidationError("unsupported version: %d", version)
@@ -203,6 +204,9 @@ func parseLamportClock(transaction *transaction, headers jws.Headers, _ *jws.Mes
 		// won't happen since it's a critical header, but we need to check the cast anyway
 		return transactionValidationError(missingHeaderErrFmt, lamportClockHeader)
 	} else if lcAsFloat64, ok := lcAsInterf.(float64); !ok {
+		return transactionValidationError(invalidHeaderErrFmt, lamportClockHeader)
+	} else if lcAsFloat64 < 0 || lcAsFloat64 > math.MaxUint32 || lcAsFloat64 != math.Trunc(lcAsFloat64) {
+		// must be an unsigned 32-bit integer, otherwise the conversion below silently yields another clock value
 		return transactionValidationError(invalidHeaderErrFmt, lamportClockHeader)
 	} else {
 		transaction.lamportClock = uint32(lcAsFloat64)
